@@ -21,28 +21,28 @@ type Violation struct {
 
 // Shard is what one test process writes to $VERIF_OUT.
 type Shard struct {
-	Property    string            `json:"property"`
-	Evaluations int               `json:"evaluations"`
-	Hashes      []uint64          `json:"hashes"` // distinct non-trivial case hashes
-	Labels      map[string]int    `json:"labels"`
-	Samples     []any             `json:"samples"`
-	Excluded    map[string]int    `json:"excluded"`
-	KnownSeen   map[string]int    `json:"known_seen"`
-	KnownText   map[string]string `json:"known_text"`
-	Violations  []Violation       `json:"violations"`
-	Floors      map[string]float64 `json:"floors"`
-	Rule        string            `json:"rule"`
-	Assumptions []string          `json:"assumptions"`
-	Extra       map[string]any    `json:"extra"`
-	Inconclusive []string         `json:"inconclusive"`
-	CorpusReplayed int            `json:"corpus_replayed"`
+	Property       string             `json:"property"`
+	Evaluations    int                `json:"evaluations"`
+	Hashes         []uint64           `json:"hashes"` // distinct non-trivial case hashes
+	Labels         map[string]int     `json:"labels"`
+	Samples        []any              `json:"samples"`
+	Excluded       map[string]int     `json:"excluded"`
+	KnownSeen      map[string]int     `json:"known_seen"`
+	KnownText      map[string]string  `json:"known_text"`
+	Violations     []Violation        `json:"violations"`
+	Floors         map[string]float64 `json:"floors"`
+	Rule           string             `json:"rule"`
+	Assumptions    []string           `json:"assumptions"`
+	Extra          map[string]any     `json:"extra"`
+	Inconclusive   []string           `json:"inconclusive"`
+	CorpusReplayed int                `json:"corpus_replayed"`
 }
 
 type Recorder struct {
-	mu     sync.Mutex
-	s      Shard
-	hashes map[uint64]struct{}
-	maxSamples int
+	mu          sync.Mutex
+	s           Shard
+	hashes      map[uint64]struct{}
+	maxSamples  int
 	sampleEvery int
 }
 
